@@ -126,10 +126,10 @@ func nBucket(n int64) string {
 	}
 }
 
-func runShard(c *rig.Ctx, cs Case, m mode) bool {
-	ok := true
+func runShard(c *rig.Ctx, cs Case, m mode) int {
+	var v verdict
 	fail := func(kind, class, what string, impl, model interface{}) {
-		ok = false
+		v.note(kind)
 		if m.record {
 			c.Fail(rig.Failure{Kind: kind, Class: class, What: what, Case: cs, Impl: impl, Model: model})
 		}
@@ -142,11 +142,11 @@ func runShard(c *rig.Ctx, cs Case, m mode) bool {
 	}
 	if err := c.Model("C13.shard", map[string]interface{}{"names": cs.Names, "n": cs.N}, &mod); err != nil {
 		fail("diff", "c13.model-error", "model error "+err.Error(), nil, nil)
-		return false
+		return v.sev
 	}
 	if len(mod.Shards) != len(cs.Names) {
 		fail("diff", "c13.model-error", "model answered a list of another length", nil, nil)
-		return false
+		return v.sev
 	}
 	// the gateway learns the count from RateLimitServerInfo.ShardCount (int32) in clientSets.sync
 	wire := int(int32(n))
@@ -199,5 +199,5 @@ func runShard(c *rig.Ctx, cs Case, m mode) bool {
 			fail("diff", "c13.shard-spec", fmt.Sprintf("GetShardID(%q, %d) = %s, fnv32a mod n = %d", name, n, r1, mod.Spec[i]), r1, mod.Spec[i])
 		}
 	}
-	return ok
+	return v.sev
 }
